@@ -466,7 +466,9 @@ def r8(F, rep, rid="C18-R8"):
             else:
                 continue
             if cn is not None:
-                out.setdefault(X.re_strip(X.key(cn, f, res)), cn)
+                # locals and parameters are identified by order of appearance, not by name
+                from .rules_c01 import _norm_locals
+                out.setdefault(X.re_strip(_norm_locals(X.key(cn, f, res))[0]), cn)
         return out
     by = {}
     for f in F.funcs.values():
